@@ -91,6 +91,9 @@ type scenario struct {
 	FailKind string `json:"fail_kind,omitempty"`
 	// PageCap > 0: the API serves at most that many records per page, whatever page size is asked for
 	PageCap int `json:"server_page_cap,omitempty"`
+	// R2Empty: the second record (on the second page of a paged zone) has no parameters at all and the API lists it without a
+	// "value" member
+	R2Empty bool `json:"r2_without_parameters,omitempty"`
 }
 
 // tokens of a parameter string, ech entries separated out
@@ -132,6 +135,24 @@ func splitValue(v string) (others []string, echs []string) {
 func run(r *ev.Run, sc scenario) {
 	api := newStore(r1Values()[sc.V1], sc.Pages)
 	api.MaxPerPage = sc.PageCap
+	if sc.R2Empty {
+		api.OmitEmptyValue = true
+		for _, z := range api.Zones {
+			for _, rec := range z.Records {
+				if rec.ID == "rec2" {
+					rec.Value = ""
+				}
+			}
+		}
+	}
+	ctx, cancelCtx := context.WithCancel(context.Background())
+	defer cancelCtx()
+	curCall := 0
+	api.Hook = func(idx int) {
+		if sc.FailKind == "cancel-context" && curCall == sc.FailCall && idx == sc.FailAt {
+			cancelCtx()
+		}
+	}
 	pub := publish.NewCloudflarePublisher("token")
 	pub.VerifConfigure(url.URL{Scheme: "https", Host: "cf.test", Path: "/client/v4/zones"}, api)
 	defer func() {
@@ -142,6 +163,7 @@ func run(r *ev.Run, sc scenario) {
 	oc := "ok"
 	for ci, c := range sc.Calls {
 		before := api.Snapshot()
+		curCall = ci
 		api.ResetCall()
 		api.FailAt = -1
 		if ci == sc.FailCall {
@@ -151,10 +173,10 @@ func run(r *ev.Run, sc scenario) {
 		for _, t := range c.Targets {
 			targets = append(targets, publish.Target{Zone: targetPool[t].Zone, Name: targetPool[t].Name})
 		}
-		results := pub.PublishECH(context.Background(), targets, cfgLists[c.Config])
+		results := pub.PublishECH(ctx, targets, cfgLists[c.Config])
 		after := api.Snapshot()
 		log := api.CallLog()
-		failed := ci == sc.FailCall && sc.FailAt < len(log)
+		failed := ci == sc.FailCall && sc.FailAt < len(log) || sc.FailKind == "cancel-context" && ctx.Err() != nil
 		tag := fmt.Sprintf("call%d", ci)
 		if len(results) != len(targets) {
 			r.Violation("result-count", fmt.Sprintf("%s: %d results for %d targets", tag, len(results), len(targets)), sc)
@@ -290,7 +312,7 @@ func dupKindAny(ts []int) string {
 }
 
 func Run(r *ev.Run) {
-	r.Rule("E4 histories of publishes on a fresh publisher + in-memory Cloudflare fake: initial value of the first record over 9 parameter strings (empty, no ech, ech first/middle/last, two ech entries, already current quoted/unquoted, a tab inside a quoted value with double blanks between parameters), zone on one page or spread over three pages (48 records), the API honouring the requested page size or capping it at 7/10/19 records per page; calls = (target list over {r1, r2, missing record, unknown zone, record of a second zone} incl. duplicates, config list L1/L2); ALL histories of <=2 calls with lists of length <=2 (thorough <=3) and ALL histories of 3 calls with lists of length <=1; E2: a single API failure {HTTP 400, success:false with and without an errors list, malformed JSON} at every request index of every call (1-call and 2-call histories). A map-based model predicts each status; store and request log are checked after each call. distinct = distinct scenarios")
+	r.Rule("E4 histories of publishes on a fresh publisher + in-memory Cloudflare fake: initial value of the first record over 9 parameter strings (empty, no ech, ech first/middle/last, two ech entries, already current quoted/unquoted, a tab inside a quoted value with double blanks between parameters), zone on one page or spread over three pages (48 records), the API honouring the requested page size or capping it at 7/10/19 records per page; a record without parameters listed without its value member; calls = (target list over {r1, r2, missing record, unknown zone, record of a second zone} incl. duplicates, config list L1/L2); ALL histories of <=2 calls with lists of length <=2 (thorough <=3) and ALL histories of 3 calls with lists of length <=1; E2: a single API failure {HTTP 400, success:false with and without an errors list, malformed JSON, the caller's context cancelled} at every request index of every call (1-call and 2-call histories). A map-based model predicts each status; store and request log are checked after each call. distinct = distinct scenarios")
 	r.Assume("parameter values contain no blanks (the publisher splits on single spaces); tabs inside quoted values and runs of blanks between parameters are in the alphabet", "a record that already carries several ech entries whose last one is current is outside the alphabet",
 		"the fake API follows Cloudflare v4 list semantics: result_info.count is the number of items on the page, total_count the total")
 	maxList := 2
@@ -321,6 +343,7 @@ func Run(r *ev.Run) {
 					for _, pc := range []int{7, 10, 19} {
 						scs = append(scs, scenario{V1: v, Pages: pages, Calls: []call{a}, FailCall: -1, PageCap: pc})
 					}
+					scs = append(scs, scenario{V1: v, Pages: pages, Calls: []call{a}, FailCall: -1, R2Empty: true}, scenario{V1: v, Pages: pages, Calls: []call{a, a}, FailCall: -1, R2Empty: true})
 				}
 				if pages && v > 2 && !r.Thorough() {
 					continue
@@ -351,7 +374,7 @@ func Run(r *ev.Run) {
 				if len(a.Targets) == 0 || len(a.Targets) > 2 {
 					continue
 				}
-				for _, kind := range []string{"http400", "success-false", "success-false-no-errors", "bad-json"} {
+				for _, kind := range []string{"http400", "success-false", "success-false-no-errors", "bad-json", "cancel-context"} {
 					for at := 0; at < 9; at++ {
 						scs = append(scs, scenario{V1: v, Pages: pages, Calls: []call{a}, FailCall: 0, FailAt: at, FailKind: kind})
 						if !pages && at < 5 {
